@@ -539,7 +539,7 @@ type reqJ struct {
 type shJ struct {
 	Ran    bool        `json:"ran"`
 	Ok     bool        `json:"ok"`
-	Writes [][2]string `json:"writes"`
+	Writes [][3]string `json:"writes"` // contract, key digest, value digest ("" = removal)
 	Keep   []string    `json:"keep"`
 	Moved  []int       `json:"moved"`
 	Req    []reqJ      `json:"req"`
@@ -578,9 +578,9 @@ func nz(x []int) []int {
 	return x
 }
 
-func (x *Exec) effOf(c *sim.TxCapture, sh sim.ShadowResult) effJ {
+func (x *Exec) effOf(c *sim.TxCapture, sh sim.ShadowResult, wsh sim.WasmShadowResult, target common.Address) effJ {
 	e := effJ{Req: []reqJ{}, Burnt: nz(sim.Limbs(c.Burnt)), Term: nz(sim.Limbs(c.Term)), Deployed: []string{}, Commits: c.Commit,
-		Sh: shJ{Writes: [][2]string{}, Keep: []string{}, Moved: []int{}, Req: []reqJ{}}}
+		Sh: shJ{Writes: [][3]string{}, Keep: []string{}, Moved: []int{}, Req: []reqJ{}}}
 	for a, v := range c.Requested() {
 		e.Req = append(e.Req, reqJ{A: x.W.Name(a), V: nz(sim.Limbs(v))})
 	}
@@ -591,7 +591,7 @@ func (x *Exec) effOf(c *sim.TxCapture, sh sim.ShadowResult) effJ {
 	if sh.Ran {
 		e.Sh.Ran, e.Sh.Ok, e.Sh.Err = true, sh.Ok, sh.Err
 		for _, kv := range sh.Writes {
-			e.Sh.Writes = append(e.Sh.Writes, [2]string{kv.K, kv.V})
+			e.Sh.Writes = append(e.Sh.Writes, [3]string{x.W.Name(target), kv.K, kv.V})
 		}
 		if sh.Keep != nil {
 			e.Sh.Keep = sh.Keep
@@ -603,6 +603,15 @@ func (x *Exec) effOf(c *sim.TxCapture, sh sim.ShadowResult) effJ {
 		sort.Slice(e.Sh.Req, func(i, j int) bool { return e.Sh.Req[i].A < e.Sh.Req[j].A })
 		if sh.Dest != nil {
 			e.Sh.Dest = x.W.Name(*sh.Dest)
+		}
+	}
+	if wsh.Ran {
+		e.Sh.Ran, e.Sh.Ok, e.Sh.Err = true, wsh.Ok, wsh.Err
+		if len(e.Sh.Err) > 100 {
+			e.Sh.Err = e.Sh.Err[:100]
+		}
+		for _, w := range wsh.Writes {
+			e.Sh.Writes = append(e.Sh.Writes, [3]string{x.W.Name(w.A), w.K, w.V})
 		}
 	}
 	return e
@@ -752,6 +761,18 @@ func (x *Exec) run(s *State, kind string, op Op, caseID int, step int) {
 		for _, a := range c.Wasm {
 			s.I.know(a)
 		}
+		var wsh sim.WasmShadowResult
+		if isWasm && len(mined) == 1 {
+			bought := new(big.Int).Sub(tx.MaxFeeOrZero(), sizeFees[i])
+			bought.Div(bought, fpg)
+			wsh = n.RunWasmShadow(preHeight, blk.Header, tx, bought.Uint64())
+			for _, w := range wsh.Writes {
+				s.I.know(w.A)
+			}
+			if wsh.Ran && wsh.GasUsed != rc.GasUsed {
+				x.Stats["wasm_shadow_gas_differs"]++
+			}
+		}
 		t := txJ{Kind: kindOf(tx.Type), Wasm: isWasm, From: x.W.Name(sender), To: x.W.Name(rc.ContractAddress),
 			Amount: nz(sim.Limbs(tx.AmountOrZero())), MaxFee: nz(sim.Limbs(tx.MaxFeeOrZero())), Tips: nz(sim.Limbs(tx.TipsOrZero())),
 			SizeFee: nz(sim.Limbs(sizeFees[i])), Fpg: nz(sim.Limbs(fpg))}
@@ -764,7 +785,7 @@ func (x *Exec) run(s *State, kind string, op Op, caseID int, step int) {
 		}
 		line := tr.M{"ev": "Tx", "id": caseID, "step": step, "c": kind, "op": op, "tx": t,
 			"rc": rcJ{Success: rc.Success, GasUsed: rc.GasUsed, GasCost: nz(sim.Limbs(rc.GasCost)), Oog: !rc.Success && isOutOfGas(errText)},
-			"eff": x.effOf(c, sh), "mid": i < len(mined)-1, "st": []acctJ{}, "err": errText, "need": need, "method": rc.Method}
+			"eff": x.effOf(c, sh, wsh, rc.ContractAddress), "mid": i < len(mined)-1, "st": []acctJ{}, "err": errText, "need": need, "method": rc.Method}
 		lines = append(lines, line)
 		if rc.Success {
 			x.Stats["tx_ok"]++
